@@ -29,7 +29,7 @@ void ipcnames_remember(const char *path)
     int i, fd;
     const char *log;
     for (i = 0; i < nnames; i++) if (!strcmp(names[i], path)) return;
-    if (nnames < MAXN) { strncpy(names[nnames], path, 63); nnames++; }
+    if (nnames < MAXN) { { int k; for (k = 0; k < 63 && path[k]; k++) names[nnames][k] = path[k]; names[nnames][k] = 0; } nnames++; }
     log = getenv("VERIF_IPCLOG");
     if (log && (fd = open(log, O_WRONLY | O_APPEND | O_CREAT, 0600)) >= 0) {
         char b[80]; int n = snprintf(b, sizeof b, "%s\n", path);
